@@ -28,6 +28,9 @@ type c20Case struct {
 	// LateReadMs: the transport's Close returns at once but a Read that was pending only returns this much later (a
 	// connection whose in-flight I/O is slow to unwind): nothing of the library may still be running when the final call returned
 	LateReadMs int `json:"late_read_ms,omitempty"`
+	// Flate: permessage-deflate negotiated (context takeover, threshold 1): an abandoned Writer then leaves a compressor
+	// allocated and the message lock held when the connection ends
+	Flate bool `json:"flate,omitempty"`
 }
 
 // lateReader delays the return of a failed (interrupted) Read.
@@ -150,7 +153,7 @@ func runC20Case(cc c20Case) (string, string) {
 	if cc.LateReadMs > 0 {
 		rwc = lateReader{a, time.Duration(cc.LateReadMs) * time.Millisecond}
 	}
-	c := websocket.VerifNewConn(rwc, cc.Client, websocket.VerifCopts{}, 0)
+	c := websocket.VerifNewConn(rwc, cc.Client, websocket.VerifCopts{Enabled: cc.Flate}, 1)
 	peer := newRawPeer(b, !cc.Client)
 	bg, cancel := context.WithTimeout(context.Background(), 20*time.Second)
 	defer cancel()
@@ -341,6 +344,7 @@ func genC20(rng *rand.Rand) c20Case {
 	if rng.Intn(5) == 0 {
 		cc.EchoDelayMs = 250 + rng.Intn(150)
 	}
+	cc.Flate = rng.Intn(3) == 0
 	return cc
 }
 
@@ -388,6 +392,10 @@ func runC20(ctx *runCtx) {
 			cases = append(cases, c20Case{Client: len(cases)%2 == 0, End: e, Then: t})
 			for _, op := range []string{"closeread", "abandon-reader", "abandon-writer", "ping"} {
 				cases = append(cases, c20Case{Client: len(cases)%2 == 0, Ops: []string{op}, End: e, Then: t})
+			}
+			if t == "close" || t == "closenow" {
+				cases = append(cases, c20Case{Client: len(cases)%2 == 0, Ops: []string{"abandon-writer"}, End: e, Then: t, Flate: true},
+					c20Case{Client: len(cases)%2 == 1, Ops: []string{"closeread", "abandon-writer"}, End: e, Then: t, Flate: true})
 			}
 		}
 	}
@@ -448,7 +456,7 @@ func runC20(ctx *runCtx) {
 	}
 	for _, cc := range cases {
 		tc := time.Now()
-		sh, w := guarded(60*time.Second, func() (string, string) { return runC20Case(cc) })
+		sh, w := guarded(40*time.Second, func() (string, string) { return runC20Case(cc) })
 		rep.eval(fmt.Sprintf("%+v", cc))
 		if d := time.Since(tc); d > time.Second {
 			rep.note("slow case (%v): %+v", d.Round(100*time.Millisecond), cc)
